@@ -31,7 +31,9 @@ MANIFEST = {
              "granted timeout, initial event with key 0, per-SID keys +1 with 2^32-1 -> 1, bodies carry every evented "
              "variable's current value, no NOTIFY to unsubscribed / expired SIDs, one NOTIFY per trigger, triggers of a "
              "variable at least its interval apart, every live subscriber up to date whenever the server is idle, "
-             "renewal moves the expiry, unknown SIDs refused). The model is tied to server.py by a per-operation "
+             "renewal moves the expiry, unknown SIDs refused); values are integers, booleans and strings with their wire text, "
+             "deliveries may fail, several services of one device are independent (c15_device, service_frame); "
+             "accepted_moderation and accepted_unsubscribed_silent state what acceptance implies for ANY trace. The model is tied to server.py by a per-operation "
              "differential check of all observations on a virtual-time loop, the key arithmetic and default timeout are "
              "regenerated from the source (Gen.C15), and the same monitor judges the implementation's traces."),
     "note": ("Trusted: Lean kernel + standard axioms; asyncio scheduling (FIFO ready queue, run-to-quiescence per "
@@ -43,17 +45,19 @@ MANIFEST = {
 RULE = ("histories of <= 25 (thorough <= 40) operations over {SUBSCRIBE new (good / malformed CALLBACK and TIMEOUT), renewal and "
         "UNSUBSCRIBE of known / unknown / empty / ended SIDs, set variable (same / new value), bursts of 2..6 assignments without "
         "yielding to the loop, advance virtual time (10 ms .. 2 h), "
-        "complete an outstanding NOTIFY (any order), preset event key near 2^32-1} on a service with 1..4 variables "
-        "(moderation 0 / 0.2 s / 2 s, with / without default, one optionally not evented) and up to 4 subscribers; plus "
+        "complete or fail an outstanding NOTIFY (any order), preset event key near 2^32-1} on one or two services of one device, each "
+        "with 1..4 variables of type i4 / boolean / string (moderation 0 / 0.2 s / 2 s, with / without default, one optionally "
+        "not evented) and up to 4 subscribers; the NOTIFY body is parsed with xml.etree and compared per variable text; plus "
         "structured scenarios (bursts inside a moderation interval, change during an initial delivery, expiry, timer ties) "
         "with every completion order of <= 3 outstanding deliveries. non-trivial = at least one event after an initial "
         "event or one deferred trigger; distinct = distinct canonical driver text")
 EXHAUSTIVE = {"quick": False, "thorough": False}
 ASSUMPTIONS = [
-    "variables hold Python ints of UPnP type i4 (value validation and other data types are C08/C14's subject)",
+    "variables are of UPnP type i4, boolean or string and are assigned values of their own type (validation is C08/C14's subject); "
+    "string values consist of characters XML 1.0 can carry",
     "header text is ASCII; TIMEOUT values have at most 9 digits (beyond that timedelta overflows: outside the alphabet)",
     "each operation is followed by running the loop until idle (a burst operation makes its assignments without yielding in between)",
-    "NOTIFY deliveries complete successfully (a failing delivery only raises out of the fire-and-forget task)",
+    "a NOTIFY delivery completes, fails (UpnpConnectionError / TimeoutError) or stays outstanding; failed deliveries are not retried by the code",
 ]
 TRUSTED = ["C15: asyncio run-to-quiescence semantics and the µs-snapped virtual-time loop; aiohttp Response.prepare on a mocked request"]
 
